@@ -32,6 +32,41 @@ def exact_fit(arr, mask, lams):
     return True
 
 
+def criterion_unresolved(variant, a1, a2, mask1, mask2, prm, l1, l2, reverse=False):
+    """The selection criterion recomputed independently (NumPy + the compiled ws2d core) for both inputs.
+    Returns a reason string when a different lambda is tolerated, else None:
+      * 'float-resolution': the criterion values of the two (mathematically equivalent) inputs differ by more than
+        1e-6 relative somewhere on the grid, or are not finite -> the criterion is below floating-point resolution there;
+      * 'tie': both selected grid points have criterion values within 1e-6 of the curve's spread."""
+    from .c04 import vcurve_asym, vcurve_sym
+    from .c05 import gcv_scores
+    sr = np.asarray(prm["sr"], dtype="float64") if "sr" in prm else (smooth.GRID_HI if prm.get("lc", 0) > 0.5 else smooth.GRID_LO)
+    p = prm.get("p")
+
+    def crit(arr, mask):
+        w = mask.astype("float64")
+        y = np.where(mask, arr, 0.0)
+        with np.errstate(all="ignore"):
+            if variant in ("optv",):
+                return vcurve_sym(y, w, sr), 10 ** ((sr[:-1] + sr[1:]) / 2)
+            if variant in ("optvp", "optvplc"):
+                return vcurve_asym(y, w, p, sr), 10 ** ((sr[:-1] + sr[1:]) / 2)
+            return gcv_scores(y, w, sr), 10 ** sr
+
+    va, grid = crit(a1, mask1)
+    vb, _ = crit(a2, mask2)
+    if not (np.all(np.isfinite(va)) and np.all(np.isfinite(vb))):
+        return "float-resolution"
+    scale = np.maximum(1e-300, np.maximum(np.abs(va), np.abs(vb)))
+    if np.max(np.abs(va - vb) / scale) > 1e-6:
+        return "float-resolution"
+    ka, kb = int(np.argmin(np.abs(np.log(grid) - np.log(l1)))), int(np.argmin(np.abs(np.log(grid) - np.log(l2))))
+    spread = max(float(va.max() - va.min()), 1e-300)
+    if abs(va[ka] - va[kb]) <= 1e-6 * spread:
+        return "tie"
+    return None
+
+
 def gcv_degenerate(ctx, variant, arr, nd, prm):
     """Robust / non-robust GCV: the selection criterion is degenerate (tied in exact arithmetic) when the best score is
     zero up to rounding, i.e. the weighted fit reproduces the weighted cells exactly.  The score history comes from the
@@ -127,6 +162,10 @@ def run(ctx: core.Ctx):
                     if not smooth.ties_ok(r2[0], r1[0] + c, np.array(m1[1]) + c):
                         ctx.fail(variant, inp, r2[0].tolist(), (r1[0] + c).tolist(), note="band must shift by the offset")
                     continue
+                why = None if variant.endswith("r") else criterion_unresolved(variant, a1, a2, mask, mask, prm, r1[1], r2[1])
+                if why:
+                    ctx.count(f"lambda differs, criterion {why}: not judged")
+                    continue
                 ctx.fail(variant, inp, dict(lopt_a=r1[1], lopt_b=r2[1]), "same lambda", signature=f"{variant}:shift-lambda",
                          note="offset must not change the selected lambda (except at criterion ties)")
                 continue
@@ -139,6 +178,10 @@ def run(ctx: core.Ctx):
                 ctx.count("criterion degenerate (exact fit): lambda not judged")
                 same_l = True
             if not same_l:
+                why = criterion_unresolved(variant, a1, a2, mask, mask[::-1].copy(), prm, r1[1], r2[1])
+                if why:
+                    ctx.count(f"lambda differs, criterion {why}: not judged")
+                    continue
                 ctx.fail(variant, inp, dict(lopt_a=r1[1], lopt_b=r2[1]), "same lambda", signature=f"{variant}:reverse-lambda")
                 continue
             if not smooth.ties_ok(r2[0], r1[0][::-1], np.array(m1[1])[::-1]):
